@@ -292,11 +292,14 @@ class EnvBoundaryMPS():
                 nx = s0[0]
                 for nz, (op1, op2) in ops.items():
                     tm[nx].set_operator_(op1)
+                    tm[nx].add_charge_swaps_(op1.n, axes=['k4', 'b3'])  # fermionic string of op1 towards op2
+                    tm[nx + 1].add_charge_swaps_(op1.n, axes='k1')
                     tm[nx + 1].set_operator_(op2)
                     env.update_env_(nx + 1, to='first')
                     env.update_env_(nx, to='first')
-                    tm[nx].del_operator_()
-                    tm[nx + 1].del_operator_()
+                    for n in (nx, nx + 1):
+                        tm[n].del_operator_()
+                        tm[n].del_charge_swaps_()
                     out[(s0, s1) + nz] = env.measure(bd=(nx - 1, nx)) / norm_env
 
         for nx, bond_ops in OPh.items():
@@ -310,11 +313,14 @@ class EnvBoundaryMPS():
                 ny = s0[1]
                 for nz, (op1, op2) in ops.items():
                     tm[ny].set_operator_(op1)
+                    tm[ny].add_charge_swaps_(op1.n, axes=['k4', 'k2'])  # fermionic string of op1 towards op2
+                    tm[ny + 1].add_charge_swaps_(op1.n, axes='b0')
                     tm[ny + 1].set_operator_(op2)
                     env.update_env_(ny + 1, to='first')
                     env.update_env_(ny, to='first')
-                    tm[ny].del_operator_()
-                    tm[ny + 1].del_operator_()
+                    for n in (ny, ny + 1):
+                        tm[n].del_operator_()
+                        tm[n].del_charge_swaps_()
                     out[(s0, s1) + nz] = env.measure(bd=(ny - 1, ny)) / norm_env
 
         return out
